@@ -603,6 +603,7 @@ pub fn reentrant_calls(
                 out.push(("file_length", cls(fs.length(f, 0))));
                 out.push(("file_offset", cls(fs.offset(f, 0))));
                 out.push(("file_eof", cls(fs.eof(f, 0))));
+                out.push(("stream_position", cls(fs.stream_pos(f))));
             }
         }
         10 => {
